@@ -432,11 +432,180 @@ func runCase(t *testing.T, transport, op, point, cause string) (line string) {
 	return line
 }
 
+// runStalled: the stream peer has stopped reading, so the operation's Write blocks inside the transport ("during send").
+// Real time (a goroutine blocked on a mutex is not durably blocked, so a bubble could never report a hanging Close).
+func runStalled(op, cause string) (line string) {
+	defer func() {
+		if r := recover(); r != nil {
+			line = fmt.Sprintf("panic %v", r)
+		}
+	}()
+	const settle = 30 * time.Millisecond
+	cc, peer, err := mem.NewTCPConn(mem.TCPOpts{Mutate: func(cfg *tcpclient.Config) {
+		cfg.LimitClientParallelRequests = 8
+		cfg.LimitClientEndpointParallelRequests = 8
+	}})
+	if err != nil {
+		return "conn-error"
+	}
+	w := &world{mid: 40000, isTCP: true, cc: cc, tp: peer}
+	time.Sleep(settle)
+	peer.TakeFrames()
+	var cbA, cbB atomic.Int32
+	cc.AddOnClose(func() { cbA.Add(1) })
+	cc.AddOnClose(func() { cbB.Add(1) })
+	baseCtx, baseCancel := context.WithCancel(context.Background())
+	defer baseCancel()
+	var obs client.Observation
+	if op == "obscancel" {
+		octx, ocancel := context.WithTimeout(baseCtx, 2*time.Second)
+		done := make(chan struct{})
+		go func() {
+			defer close(done)
+			obs, _ = cc.Observe(octx, "/q", func(*pool.Message) {})
+		}()
+		time.Sleep(settle)
+		for _, m := range w.collect() {
+			if m.Code() == codes.GET {
+				r := pool.NewMessage(context.Background())
+				r.SetCode(codes.Content)
+				r.SetToken(m.Token())
+				r.SetObserve(5)
+				w.inject(r)
+			}
+		}
+		<-done
+		ocancel()
+		if obs == nil {
+			peer.Close()
+			_ = cc.Close()
+			return "setup-failed"
+		}
+	}
+	peer.Stall()
+	time.Sleep(settle)
+	deadlineIn := 150 * time.Millisecond
+	var ctx context.Context
+	var cancel context.CancelFunc
+	if cause == "deadline" {
+		ctx, cancel = context.WithTimeout(baseCtx, deadlineIn)
+	} else {
+		ctx, cancel = context.WithCancel(baseCtx)
+	}
+	defer cancel()
+	start := time.Now()
+	retCh := make(chan error, 1)
+	var retAt atomic.Int64
+	go func() {
+		var err error
+		switch op {
+		case "get":
+			var r *pool.Message
+			r, err = cc.Get(ctx, "/q")
+			if err == nil {
+				cc.ReleaseMessage(r)
+			}
+		case "observe":
+			_, err = cc.Observe(ctx, "/q", func(*pool.Message) {})
+		case "obscancel":
+			err = obs.Cancel(ctx)
+		case "ping":
+			err = cc.Ping(ctx)
+		case "write":
+			m := cc.AcquireMessage(ctx)
+			m.SetCode(codes.POST)
+			m.SetToken(message.Token{0x55})
+			_ = m.SetPath("/q")
+			err = cc.WriteMessage(m)
+			cc.ReleaseMessage(m)
+		}
+		retAt.Store(time.Now().UnixNano())
+		retCh <- err
+	}()
+	time.Sleep(settle) // the call is now blocked in the transport's Write
+	var causeAt time.Time
+	closeDone := make(chan struct{}, 8)
+	switch cause {
+	case "cancel":
+		cancel()
+		causeAt = time.Now()
+	case "deadline":
+		causeAt = start.Add(deadlineIn)
+		time.Sleep(time.Until(causeAt))
+	case "close":
+		causeAt = time.Now()
+		go func() { _ = cc.Close(); closeDone <- struct{}{} }()
+	case "peerclose":
+		causeAt = time.Now()
+		_ = peer.Conn.Close()
+	case "garbage":
+		causeAt = time.Now()
+		go func() { _ = peer.Write([]byte{0xf0, 0xff, 0xff, 0xff, 0xff, 0x01}) }()
+	}
+	returned, kind := 0, "-"
+	var after int64 = -1
+	select {
+	case err := <-retCh:
+		returned, kind = 1, errKind(err)
+		after = retAt.Load() - causeAt.UnixNano()
+		if after < 0 {
+			after = 0
+		}
+	case <-time.After(time.Second):
+	}
+	// close: three goroutines at once, then once more; a hanging Close is noticed by the missing done signal
+	panics := 0
+	for i := 0; i < 3; i++ {
+		go func() {
+			defer func() {
+				if recover() != nil {
+					panics++
+				}
+				closeDone <- struct{}{}
+			}()
+			_ = cc.Close()
+		}()
+	}
+	deadline := time.After(time.Second)
+	for i := 0; i < 3; i++ {
+		select {
+		case <-closeDone:
+		case <-deadline:
+			i = 3
+		}
+	}
+	done := 0
+	select {
+	case <-cc.Done():
+		done = 1
+	case <-time.After(500 * time.Millisecond):
+	}
+	// let everything go: the peer disappears, stuck writes fail
+	cancel()
+	baseCancel()
+	peer.Close()
+	if returned == 0 {
+		select {
+		case <-retCh:
+		case <-time.After(2 * time.Second):
+		}
+	}
+	select {
+	case <-cc.Done():
+	case <-time.After(2 * time.Second):
+	}
+	return fmt.Sprintf("ret %d after %d err %s ; done %d onclose %d %d ; panics %d", returned, after, kind, done, cbA.Load(), cbB.Load(), panics)
+}
+
 func TestC09(t *testing.T) {
 	err := lp.FileLoop(func(f []string, w *bufio.Writer) {
 		if len(f) == 5 && f[0] == "case" {
 			lp.PoolTraceBegin()
-			fmt.Fprintln(w, runCase(t, f[1], f[2], f[3], f[4]))
+			if f[3] == "stalled" {
+				fmt.Fprintln(w, runStalled(f[2], f[4]))
+			} else {
+				fmt.Fprintln(w, runCase(t, f[1], f[2], f[3], f[4]))
+			}
 			lp.PoolTraceEnd("c09 " + strings.Join(f[1:], " "))
 			return
 		}
